@@ -132,6 +132,7 @@ fn main() {
         Some("probe") => probe(&args[2..]),
         Some("check") => std::process::exit(run_property(&args[2], &args[3..])),
         Some("replay") => std::process::exit(replay(&args[2])),
+        Some("segment-child") => std::process::exit(job::segment_child_main(&args[2..])),
         Some("survey") => {
             let n: u64 = args.get(3).and_then(|s| s.parse().ok()).unwrap_or(2000);
             let seed = check::verif_seed();
